@@ -54,7 +54,7 @@ def frame_bytes(code, tpci, own, n, variant=None):
     return CEMIFrame(code=cm, data=data).to_knx()
 
 
-def run_hist(script, seed=0):
+def run_hist(script, seed=0, eager=False):
     """script: list of (t_ms, action): ("rx", code, tpci, own) | ("send", id, iface_ms, outcome, con_at)
        outcome: ok | raise;  con_at: list of offsets (ms, relative to the hand-over) at which an L_Data.con arrives"""
     from xknx import XKNX
@@ -68,6 +68,8 @@ def run_hist(script, seed=0):
         now = lambda: ms(loop.time())
 
         async def main():
+            if eager:       # tasks that run their first step inside create_task() (Python 3.12 eager_task_factory, what Home Assistant uses)
+                loop.set_task_factory(asyncio.eager_task_factory)
             m = Mock()
             m.start = AsyncMock()
             m.stop = AsyncMock()
@@ -132,6 +134,18 @@ def run_hist(script, seed=0):
                 n += 1
                 if act[0] == "rx":
                     loop.call_at(t / 1000, loop.inject, rx, act[1], act[2], act[3], n, act[4] if len(act) > 4 else None)
+                elif act[0] in ("consend", "sendcon"):
+                    # a confirmation and the start of a send in one callback of the loop, in either order: the sender starts before the
+                    # task woken by the confirmation has run
+                    plan[act[1]] = (act[2], act[3], act[4])
+
+                    def both(i=act[1], first=act[0], n=n):
+                        if first == "consend":
+                            rx("con", "group", 0, n)
+                        tasks.append(loop.create_task(sender(i)))
+                        if first == "sendcon":
+                            rx("con", "group", 0, n)
+                    loop.call_at(t / 1000, both)
                 else:
                     plan[act[1]] = (act[2], act[3], act[4])
                     loop.call_at(t / 1000, lambda i=act[1]: tasks.append(loop.create_task(sender(i))))
@@ -163,6 +177,10 @@ def plans(ck):
     for (c1, c2), gap in itertools.product(itertools.product(cons[:7], repeat=2), (0, 1, 300)):
         if rnd.random() < (0.5 if ck.tier == "quick" else 1.0):
             out.append([(0, ("send", 1, rnd.choice([0, 700]), "ok", c1)), (gap, ("send", 2, rnd.choice([0, 700]), "ok", c2))])
+    # a confirmation for the waiting send and the start of the next send in the same callback
+    for at, kind, c2, iface in itertools.product((0, 1, 500, 2999), ("consend", "sendcon"), ([], [0], [5], [3100]), (0, 300)):
+        out.append([(0, ("send", 1, 0, "ok", [])), (at, (kind, 2, iface, "ok", c2))])
+        out.append([(0, ("send", 1, 0, "ok", [at])), (at, (kind, 2, iface, "ok", c2))])
     for _ in range(200 if ck.tier == "quick" else 4000):
         s, t = [], 0
         for i in range(rnd.randrange(2, 6)):
@@ -182,16 +200,18 @@ def run(ck):
     tlc.mc(ck, "cemi/CemiHandler_MC", require_actions=False)
     dev = tlc.mc(ck, "cemi/CemiHandler_MC", cfg="cemi/CemiHandler_Dev", expect_error=True, record=False, coverage=False)
     ck.add(deviation_model_counterexample="FreshConfirmationOnly" in dev.out)
-    ps = plans(ck)
-    traces = [run_hist(p, ck.seed) for p in ps]
+    ps0 = plans(ck)
+    ps = ps0 + ps0
+    eager = [False] * len(ps0) + [True] * len(ps0)
+    traces = [run_hist(p, ck.seed, eager=e_) for p, e_ in zip(ps, eager)]
     res = tlc.batch(ck, "cemi/CemiHandler_Trace", traces, min_per_shard=60)
     for idx, info in sorted(res.bad.items()):
         t = traces[idx]
         l = info if isinstance(info, int) else 0
         e = t[l - 1] if 0 < l <= len(t) else None
-        ck.violation({"script": [[x[0], list(x[1])] for x in ps[idx]], "rejected": {k: v for k, v in (e or {}).items() if k != "t"}},
-                     f"cEMI handler trace rejected at event {l}: {e}; before {t[max(0, l - 6):l - 1]}; script {ps[idx]}",
-                     {"script": ps[idx], "trace": t, "rejected_at": l})
+        ck.violation({"script": [[x[0], list(x[1])] for x in ps[idx]], "rejected": {k: v for k, v in (e or {}).items() if k != "t"}, "eager": eager[idx]},
+                     f"cEMI handler trace rejected at event {l}: {e}; before {t[max(0, l - 6):l - 1]}; script {ps[idx]}" + (" (eager tasks)" if eager[idx] else ""),
+                     {"script": ps[idx], "trace": t, "rejected_at": l, "eager": eager[idx]})
     muts = []
     for i, t in enumerate(traces):
         if i in res.bad or len(muts) >= 160:
@@ -210,7 +230,7 @@ def run(ck):
     r2 = tlc.batch(ck, "cemi/CemiHandler_Trace", muts, min_per_shard=60)
     if not muts or len(r2.bad) != len(muts):
         raise MachineryError(f"binding self-test: {len(muts) - len(r2.bad)} of {len(muts)} corrupted traces accepted")
-    ck.add(traces_validated_against_impl=res.accepted, trace_events=sum(len(t) for t in traces), scripts=len(ps),
+    ck.add(traces_validated_against_impl=res.accepted, trace_events=sum(len(t) for t in traces), scripts=len(ps0), scheduling_modes=2,
            sends=sum(1 for t in traces for e in t if e["ev"] == "call"), frames=sum(1 for t in traces for e in t if e["ev"] == "rx"),
            selftest_corrupted_rejected=len(muts))
     ck.sample({"script": ps[45], "trace": traces[45]})
@@ -220,7 +240,7 @@ def replay(ck, path):
     import json
 
     d = json.loads(open(path).read())["replay"]
-    t = run_hist([(x[0], tuple(x[1])) for x in d["script"]], ck.seed)
+    t = run_hist([(x[0], tuple(x[1])) for x in d["script"]], ck.seed, eager=bool(d.get("eager")))
     res = tlc.batch(ck, "cemi/CemiHandler_Trace", [t])
     print("trace:", t, "\nrejected at:", res.bad.get(0))
     return 1 if res.bad else 0
